@@ -766,6 +766,21 @@ def apply_seq_defs(defs, fs):
     return [f for f in flatten_and(out) if not z3.is_true(f)]
 
 
+def _end_position_instances(quant, ng):
+    """An existential goal about a list that was just appended to is witnessed by the last position: the negated goal (a universal fact, the
+    last entry of `quant` when there is one) is instantiated at len(s) and len(s) - 1 for the sequence constants s it mentions."""
+    out = []
+    if not quant or not _has_quant(ng):
+        return out
+    u = quant[-1]
+    if not (z3.is_quantifier(u) and u.is_forall() and u.num_vars() == 1 and u.var_sort(0) == z3.IntSort()):
+        return out
+    for sc in _seq_consts([ng])[:4]:
+        for t in (z3.Length(sc), z3.Length(sc) - 1):
+            out.append(norm(z3.substitute_vars(u.body(), t)))
+    return [i for i in out if not z3.is_true(i)]
+
+
 def prepare_deep(hyps, ng, quant, ground, gr0, lean):
     """The expensive variants of one sub-problem, built only when the lean stages did not decide it."""
     sub = {}
@@ -883,6 +898,7 @@ def prepare(ob):
                 quant = quant + [u]
         # ---- the lean instance set (one round at the ground index terms + E-matching): given to every back end, with and without the quantified originals
         lean = instantiate(quant, ground)
+        lean += _end_position_instances(quant, ng)
         em = ematch(quant, ground + lean)
         em += ematch(quant, ground + lean + em)      # second round: instances expose new terms
         ids = {i.get_id() for i in lean}
@@ -1050,6 +1066,8 @@ def solve_sub(sub, expect="unsat", thorough=False):
             a = cli("ground", "z3-4.8.12/ground-instances", Z3OLD)
             if a == "unsat":
                 return done("unsat", "z3-4.8.12/ground-instances")
+            if a == "sat":
+                ground_sat = True
     if "deep" in sub:
         a = cli("deep", "cvc5-1.0.3/deep-instances", CVC5)
         if a == "unsat":
@@ -1061,6 +1079,8 @@ def solve_sub(sub, expect="unsat", thorough=False):
         r2, m2 = z3api("ground", "z3-5.1/ground-instances", T_Z3, want_model=True)
         ground_model = m2 if r2 == "sat" else None
     # candidate counter-model from the ground problem (quantified hypotheses dropped): not a refutation by itself
+    if ground_sat and ground_model is None:
+        ground_model = {"note": "the ground-instantiated problem is satisfiable (" + ", ".join(l[0] for l in log if l[1] == "sat") + "); model text not retrieved"}
     return done("unknown", "-", ground_model, candidate=ground_model is not None)
 
 
